@@ -22,6 +22,103 @@ fn perm_expected(c_cols: usize, r_rows: usize, backward: bool) -> Vec<usize> {
     v
 }
 
+// ---- an element type with a destructor ("any element type"): every live value carries a magic word and a unique id
+// registered in a per-thread ledger; a destructor that runs on something that was never constructed (memory handed
+// out as initialised without being so) or twice, and values that are never dropped, show up in the ledger.
+thread_local! {
+    static LEDGER: std::cell::RefCell<(u64, std::collections::HashSet<u64>, u64)> = std::cell::RefCell::new((0, std::collections::HashSet::new(), 0));
+}
+const MAGIC: u64 = 0x5EED_1DEA_C0DE_F00D;
+struct Tracked {
+    magic: u64,
+    id: u64,
+    val: i64,
+    _heap: Box<i64>,
+}
+impl Tracked {
+    fn new(val: i64) -> Tracked {
+        let id = LEDGER.with(|l| {
+            let mut l = l.borrow_mut();
+            l.0 += 1;
+            let id = l.0;
+            l.1.insert(id);
+            id
+        });
+        Tracked { magic: MAGIC, id, val, _heap: Box::new(val) }
+    }
+}
+impl Clone for Tracked {
+    fn clone(&self) -> Tracked {
+        Tracked::new(self.val)
+    }
+}
+impl Drop for Tracked {
+    fn drop(&mut self) {
+        let ok = self.magic == MAGIC && LEDGER.with(|l| l.borrow_mut().1.remove(&self.id));
+        if !ok {
+            LEDGER.with(|l| l.borrow_mut().2 += 1);
+            // do not free a pointer that was never allocated
+            let fake = std::mem::replace(&mut self._heap, Box::new(0));
+            std::mem::forget(fake);
+        }
+    }
+}
+impl std::ops::Add for Tracked {
+    type Output = Tracked;
+    fn add(self, o: Tracked) -> Tracked {
+        Tracked::new(self.val + o.val)
+    }
+}
+impl Zero for Tracked {
+    fn zero() -> Tracked {
+        Tracked::new(0)
+    }
+    fn is_zero(&self) -> bool {
+        self.val == 0
+    }
+}
+
+fn check_interleaver_tracked(l: &mut Local, c_cols: usize, r_rows: usize, backward: bool) {
+    let n = c_cols * r_rows;
+    let want = perm_expected(c_cols, r_rows, backward);
+    let det = |what: &str| J::obj().set("columns", c_cols).set("rows", r_rows).set("backward", backward).set("element_type", "struct with a destructor").set("what", what);
+    LEDGER.with(|l| *l.borrow_mut() = (0, std::collections::HashSet::new(), 0));
+    l.eval();
+    let r = guard(|| {
+        let il = Interleaver::new(c_cols, backward);
+        let input: Array1<Tracked> = Array1::from_vec((0..n as i64).map(Tracked::new).collect());
+        let out: Array1<Tracked> = il.interleave(&input);
+        let got: Vec<usize> = out.iter().map(|t| t.val as usize).collect();
+        let back: Vec<Tracked> = il.deinterleave(out.as_slice().unwrap());
+        let id: Vec<usize> = back.iter().map(|t| t.val as usize).collect();
+        (got, id)
+    });
+    let (live, bad) = LEDGER.with(|l| {
+        let l = l.borrow();
+        (l.1.len(), l.2)
+    });
+    match r {
+        Err(p) => l.violation(format!("interleave/deinterleave panicked for an element type with a destructor: {}", panic_class(&p)), det(&p)),
+        Ok((got, id)) => {
+            if got != want {
+                l.violation("interleave is not the column-write/row-read permutation (element type with a destructor)", det("permutation"));
+            } else if id != (0..n).collect::<Vec<_>>() {
+                l.violation("deinterleave is not the inverse of interleave (element type with a destructor)", det("inverse"));
+            }
+        }
+    }
+    if bad > 0 {
+        l.violation(
+            "a destructor ran on an element that was never constructed (or ran twice) inside interleave/deinterleave",
+            det("destructor ledger").set("bad_destructor_calls", bad),
+        );
+    } else if live > 0 {
+        l.violation("interleave/deinterleave leaks elements (constructed values never dropped)", det("destructor ledger").set("live_after_all_drops", live));
+    } else {
+        l.count("tracked_element_runs");
+    }
+}
+
 fn check_interleaver(l: &mut Local, c_cols: usize, r_rows: usize, backward: bool) {
     let n = c_cols * r_rows;
     let il = Interleaver::new(c_cols, backward);
@@ -331,7 +428,7 @@ fn check_indivisible(l: &mut Local, pattern: &[bool], len: usize) {
 
 pub fn run(run: &mut Run) {
     let miri = cfg!(miri);
-    run.rule = "interleaver: EXHAUSTIVE over columns C in 1..12, rows R in 1..12, both directions, element types i64/f64/u8/GF2 with unique tags so the permutation is read off the output (f64 vectors contain +0.0 and -0.0 and are compared bit for bit; every shape is exercised right after an interleaver of the same shape and opposite direction was used on the same thread) (plus random larger shapes up to 360x180 in thorough); puncturer: EXHAUSTIVE over all 510 patterns of length <= 8 with >= 1 true x block sizes 1..6, all lengths <= 50 that the pattern length / kept count does not divide, and the empty input; non-trivial = shape with C>1 and R>1 / pattern that removes at least one block; distinct by (C,R,dir) or (pattern, block)".into();
+    run.rule = "interleaver: EXHAUSTIVE over columns C in 1..12, rows R in 1..12, both directions, element types i64/f64/u8/GF2 and a struct with a destructor (ledger of constructed/dropped values: no destructor on unconstructed memory, no leak) with unique tags so the permutation is read off the output (f64 vectors contain +0.0 and -0.0 and are compared bit for bit; every shape is exercised right after an interleaver of the same shape and opposite direction was used on the same thread) (plus random larger shapes up to 360x180, and patterns of 60..200 blocks); puncturer: EXHAUSTIVE over all 510 patterns of length <= 8 with >= 1 true x block sizes 1..6, all lengths <= 50 that the pattern length / kept count does not divide, and the empty input; non-trivial = shape with C>1 and R>1 / pattern that removes at least one block; distinct by (C,R,dir) or (pattern, block)".into();
     run.exhaustive = Some(true);
     run.assumptions = vec![
         "the interleaver's documented panic on lengths not divisible by the column count is outside the statement".into(),
@@ -344,6 +441,7 @@ pub fn run(run: &mut Run) {
         let c = (i / 2) % maxc + 1;
         let r = (i / 2) / maxc + 1;
         check_interleaver(l, c, r, backward);
+        check_interleaver_tracked(l, c, r, backward);
         if idx % 97 == 0 {
             l.sample(|| J::obj().set("columns", c).set("rows", r).set("backward", backward).set("expected_permutation", perm_expected(c, r, backward)));
         }
@@ -383,10 +481,15 @@ pub fn run(run: &mut Run) {
             check_interleaver(l, c, r, rng.coin());
         });
         run.sub("puncturer-random-large", n, |l, _idx, rng| {
-            let len = rng.range(9, 24);
+            // a quarter of the patterns is longer than a machine word (kept blocks beyond index 64 and 128)
+            let long = rng.chance(0.25);
+            let len = if long { rng.range(60, 200) } else { rng.range(9, 24) };
             let mut pat: Vec<bool> = (0..len).map(|_| rng.chance(0.7)).collect();
             pat[rng.below(len)] = true;
-            check_puncturer(l, &pat, rng.range(7, 360));
+            if long {
+                pat[len - 1] = true;
+            }
+            check_puncturer(l, &pat, if long { rng.range(1, 12) } else { rng.range(7, 360) });
         });
     }
 }
